@@ -302,6 +302,20 @@ def run_c17(out, tier, rng):
                     out.violations.append({"oracle": "import of one OGG + PlayWav + save completes", "spec": desc(r["spec"]), "error": r.get("harness_error") or r.get("exception")})
                 elif sc["error"] or sc["got"] is None or abs(sc["got"] - sc["want"]) > 1.0:
                     out.violations.append({"oracle": "a PlayWav without explicit duration gets the file's true duration, also when the file is the archive's only sound and an OGG", "spec": desc(r["spec"]), "got": sc})
+        r = child({"op": "scenario_mixed_batch", "base": base, "dest": "absent", "flag": "default", "fault": None})
+        sc = r.get("scenario")
+        out.case("c17:history-mixed-batches", json.dumps(desc(r["spec"]), sort_keys=True).encode(), sample={"spec": desc(r["spec"]), "result": sc})
+        if sc is None:
+            out.violations.append({"oracle": "a sequence of imports mixing listed and new sounds completes", "spec": desc(r["spec"]), "error": r.get("harness_error") or r.get("exception")})
+        else:
+            for st in sc["steps"]:
+                if st.get("error"):
+                    out.violations.append({"oracle": "an import batch that mixes sounds the map already lists with new ones completes", "spec": desc(r["spec"]), "history": "imports [a] ; [a,b] ; [c,c,d] ; [e,a]", "step": st["step"], "error": st["error"]})
+                    break
+                if st["not_listed"] or st["not_stored"] or st["dropped_from_table"]:
+                    out.violations.append({"oracle": "after an import every file of the batch is stored with its bytes and listed in the map's sound table, and what was listed stays listed — whatever mix of listed, repeated and new sounds the batch holds, in whatever order",
+                                           "spec": desc(r["spec"]), "history": "imports [a] ; [a,b] ; [c,c,d] ; [e,a]", "step": st["step"], "got": st})
+                    break
         for free in ([0], [0, 2], [1, 3]):
             r = child({"op": "scenario_sparse_wav", "base": base, "dest": "absent", "flag": "default", "fault": None, "free_slots": free})
             sc = r.get("scenario")
